@@ -94,6 +94,10 @@ def run(chk, ctx):
                'refused with %s: %r' % (sorted(lad['reject_types']),
                                         lad['reject']),
                detail={'expected': repr(want_reject)}, site=site)
+        # ... and with TypeError only, for every integer however large:
+        # the ladder run on a value known to be an int (comparisons cannot
+        # fail; what can is building the message)
+        int_refusal_types(chk, ctx, mode, legacy, site)
         if legacy:
             acc = ISet.empty()
             for s in got.values():
@@ -295,3 +299,26 @@ def run(chk, ctx):
            'decorated: %s (a cached result ignores a later toggle)' % deco,
            site='pamqp/encode.py')
     chk.units['ladder_functions'] = sorted(ladder_funcs)
+
+
+def int_refusal_types(chk, ctx, mode, legacy, site):
+    from .. import codec
+    prog = ctx.prog
+    fi = prog.function('encode.table_integer')
+    # everything inlined (the delegate ladder and the fixed-width encoders
+    # with their own messages), the switch fixed
+    pol = tables.ArmPolicy(
+        prog, {f.qualname for f in prog.module('encode').functions.values()},
+        flag=bool(legacy))
+    P = Sym('typed', Sym('param', 'value'), ('int',), None)
+    it, outs = codec.run(prog, fi, [P], pol)
+    kinds = {}
+    for o in outs:
+        if o.kind == 'raise':
+            kinds.setdefault(o.exc.type_name, o.exc)
+    bad = {k: v for k, v in kinds.items() if k != 'TypeError'}
+    chk.ob('C11.P', mode + ' ladder refusal type', bool(kinds) and not bad,
+           'an int is refused with %s only' % sorted(kinds) if not bad else
+           'an int can also be refused with %s' % ', '.join(
+               '%s at %s (%s)' % (k, v.site, v.why[:70])
+               for k, v in sorted(bad.items())), site=site)
